@@ -14,7 +14,7 @@ LEVEL_TEXT = ("Static structural proof of necessary conditions: (R4.1) in the fu
               "validators no branch condition or comparison depends on a spelling-dependent accessor (org_tag, "
               "org_base_tag, tag, the original string), which may flow only into messages and index arithmetic. "
               "Invariance itself (a relation between two runs) and blank-insensitivity of the delimiter scan are NOT decided.")
-LEVEL_EXTRA = "Added after the seeded evaluation: (R4.3) blank-stripped delimiter scan; (R4.4) the validators' sibling loops carry no conditionally assigned state from one sibling to the next (one frozen exception); (R4.5) 'is a top-level group' is decided by identity, not order-sensitive equality; (R4.6) a reporting loop is left by `break` only after a report in the same iteration."
+LEVEL_EXTRA = "Added after the seeded evaluation: (R4.3) blank-stripped delimiter scan; (R4.4) the validators' sibling loops carry no conditionally assigned state from one sibling to the next (one frozen exception); (R4.5) 'is a top-level group' is decided by identity, not order-sensitive equality; (R4.6) a reporting loop is left by `break` only after a report in the same iteration. (R4.7) HedTag.__eq__ folds case on every form it compares, as __hash__ does."
 
 SPELLING_ATTRS = {"org_tag", "org_base_tag", "_hed_string", "_org_tag"}
 SPELLING_CALLS = {"get_original_hed_string", "get_as_original"}
@@ -227,6 +227,35 @@ def run(ctx):
             (1, "`prev_child`: adjacent-equality scan over the canonically sorted view (R4.1 makes the order canonical)")},
         "The verdict for one tag or group then depends on which siblings were visited before it, i.e. on sibling order.")
     ctx.floor("R4.4", "loops in the validator modules", nl, 20)
+    ctx.rule("R4.7", "tag equality folds case on every form it compares, like the tag's hash does (one notion of 'same tag')")
+    tag_cls = prog.find_class("HedTag")
+    teq, thash = tag_cls.methods.get("__eq__"), tag_cls.methods.get("__hash__")
+    if teq is None or thash is None:
+        raise AnalysisError("anchor HedTag.__eq__/__hash__ vanished")
+    ctx.saw(teq, thash)
+    hash_folds = any(isinstance(c, ast.Call) and isinstance(c.func, ast.Attribute) and c.func.attr == "casefold"
+                     for c in ast.walk(thash.node))
+    if not hash_folds:
+        raise AnalysisError("R4.7 anchor: HedTag.__hash__ no longer case-folds (the reference for equality changed)")
+    n_cmp = 0
+    oname = teq.params()[1] if len(teq.params()) > 1 else "other"
+    for c in walk_no_nested(teq.node):
+        if isinstance(c, ast.Compare) and len(c.ops) == 1 and isinstance(c.ops[0], (ast.Eq, ast.NotEq)):
+            l, r = c.left, c.comparators[0]
+            sides = (l, r)
+            if not (any(isinstance(x, ast.Name) and x.id == "self" for x in ast.walk(l) ) and
+                    any(isinstance(x, ast.Name) and x.id == oname for x in ast.walk(r))) and not (
+                    any(isinstance(x, ast.Name) and x.id == oname for x in ast.walk(l)) and
+                    any(isinstance(x, ast.Name) and x.id == "self" for x in ast.walk(r))):
+                continue
+            n_cmp += 1
+            folded = all(isinstance(e, ast.Call) and isinstance(e.func, ast.Attribute) and e.func.attr == "casefold" for e in sides)
+            ctx.check(folded, "R4.7", teq.qualname, c, loc(teq, c),
+                      "`%s` compares a form of the two tags without folding case, while the hash and the other comparison fold it: "
+                      "two spellings of one tag that differ in letter case *and* in path form (`Label/abc` vs "
+                      "`Property/Informational-property/Label/ABC`) are unequal, so the repeat is not reported" % norm(c)[:70],
+                      desc="tag equality compares `%s` case-folded" % norm(l)[:30])
+    ctx.floor("R4.7", "form comparisons in HedTag.__eq__", n_cmp, 2)
     ctx.rule("R4.6", "a per-item validator loop is left early only after a report for the current item")
     from sa.stale import check_no_silent_break
     allv = [f for f in prog.functions.values() if f.module.name.startswith("hed.validator.")]
